@@ -86,8 +86,15 @@ class Hexital:
             elif indicator.timeframe and indicator.timeframe in self._candles:
                 indicator.candle_manager = self._candles[indicator.timeframe]
             else:
+                # derived timeframes are built from the raw base candles, not from converted ones
+                base_candles = deepcopy(self._candles[DEFAULT_CANDLES].candles)
+                for candle in base_candles:
+                    candle.recover_clean_values()
+                    candle.clean_values = {}
+                    candle.reset_candle()
+
                 manager = CandleManager(
-                    deepcopy(self._candles[DEFAULT_CANDLES]).candles,
+                    base_candles,
                     candles_lifespan=self.candles_lifespan,
                     timeframe=indicator.timeframe if indicator.timeframe else self.timeframe,
                     timeframe_fill=self.timeframe_fill,
@@ -204,8 +211,12 @@ class Hexital:
         self._indicators.pop(name, None)
 
     def append(self, candles: Candle | List[Candle] | dict | List[dict] | list | List[list]):
-        for candle_manager in self._candles.values():
-            candle_manager.append(candles)
+        # the default manager works on the given objects (and may convert them in place):
+        # every other manager takes its own copy first
+        for name, candle_manager in self._candles.items():
+            if name != DEFAULT_CANDLES:
+                candle_manager.append(candles)
+        self._candles[DEFAULT_CANDLES].append(candles)
 
         self.calculate()
 
